@@ -183,6 +183,13 @@ func SideConditions(as []*smt.Term) []*smt.Term {
 		case "url.scheme":
 			// schemes are lower-case [a-z][a-z0-9+.-]* or empty
 			add(smt.InRe(x, reScheme))
+			// net/url's getScheme: the scheme is what precedes the first colon when
+			// that prefix is a letter followed by letters, digits, + - . ; otherwise
+			// there is none
+			r := x.Args[0]
+			has := smt.InRe(r, reHasScheme)
+			idx := smt.IndexOf(r, smt.StrC(":"), smt.IntC(0))
+			add(smt.Implies(urlOK(r), smt.Ite(has, smt.Eq(x, Lower(smt.Substr(r, smt.IntC(0), idx))), smt.Eq(x, smt.StrC("")))))
 		case "trimspace":
 			// functional characterisation is added where the application is created
 		case "esc":
@@ -200,6 +207,7 @@ var (
 	rePlainQuote = smt.ReStar(smt.ReUnion(smt.ReRange(0x20, 0x21), smt.ReRange(0x23, 0x5b), smt.ReRange(0x5d, 0x7e)))
 	reNoCtl      = smt.ReStar(smt.ReRange(0x20, 0x7e))
 	reScheme     = smt.ReUnion(smt.ReLit(""), smt.ReConcat(smt.ReRange('a', 'z'), smt.ReStar(smt.ReUnion(smt.ReRange('a', 'z'), smt.ReRange('0', '9'), smt.ReLit("+"), smt.ReLit("."), smt.ReLit("-")))))
+	reHasScheme  = smt.ReConcat(smt.ReUnion(smt.ReRange('a', 'z'), smt.ReRange('A', 'Z')), smt.ReStar(smt.ReUnion(smt.ReRange('a', 'z'), smt.ReRange('A', 'Z'), smt.ReRange('0', '9'), smt.ReLit("+"), smt.ReLit("."), smt.ReLit("-"))), smt.ReLit(":"), smt.SigmaStar)
 	reHasMarkup  = smt.ReConcat(smt.SigmaStar, smt.ReUnion(smt.ReLit("<"), smt.ReLit(">"), smt.ReLit("\""), smt.ReLit("'")), smt.SigmaStar)
 )
 
